@@ -724,6 +724,7 @@ func streamC01(res *Result, enc *shardWriter) {
 		n = 150000
 	}
 	src.mixed(n, emit)
+	src.structured(thorough, emit)
 	for _, ex := range specExamples() {
 		emit([]byte(ex))
 		if thorough {
